@@ -1,0 +1,46 @@
+//go:build verif
+
+// Package verifhook provides verification hook points. With the `verif` build tag a harness
+// installs a controller that is consulted at every hook point.
+package verifhook
+
+import "sync"
+
+// Controller is installed by a verification harness.
+type Controller interface {
+	// Yield is called at a named point; it may block the calling goroutine.
+	Yield(point string)
+	// Fault is called before a named operation; a non-nil error makes the operation fail.
+	Fault(op, arg string) error
+}
+
+var (
+	mu   sync.RWMutex
+	ctrl Controller
+)
+
+// Install sets (or with nil removes) the controller.
+func Install(c Controller) {
+	mu.Lock()
+	defer mu.Unlock()
+	ctrl = c
+}
+
+func current() Controller {
+	mu.RLock()
+	defer mu.RUnlock()
+	return ctrl
+}
+
+func Yield(point string) {
+	if c := current(); c != nil {
+		c.Yield(point)
+	}
+}
+
+func Fault(op, arg string) error {
+	if c := current(); c != nil {
+		return c.Fault(op, arg)
+	}
+	return nil
+}
